@@ -1,0 +1,9 @@
+//go:build !verif
+
+package redisemu
+
+// Verification schedule / persistence points: no-ops unless built with the `verif` tag.
+
+func verifPoint(name string, cs *clientState) {}
+
+func verifPersistPoint(stage string, tmpName string, fileName string) {}
